@@ -343,6 +343,25 @@ def run(ctx):
     ctx.oblig(ok, {"stdin reader": "one push per non-delimiter character"}, "call structure")
     if not ok:
         ctx.violation("stdin-push", sr.file_line(), "the stdin reader does not copy each non-delimiter character exactly once")
+    # end of input: both transports hand out the text before EOF as a last command (the argument reader returns buffer[start..len]);
+    # the stdin reader may answer "no more commands" only when it has collected nothing
+    ctx.instance(1)
+    nones = [b for b, i, s_ in sr.assigns() if s_["p"]["l"] == 0 and not s_["p"].get("pr") and s_["r"]["k"] == "agg"
+             and str(s_["r"].get("adt", "")).endswith("option::Option") and s_["r"].get("variant") == "None"]
+    empt = []
+    for b, t, c in sr.calls():
+        if c and c.endswith("::is_empty") and t.get("t") is not None:
+            tt = sr.term(t["t"])
+            if tt["k"] == "switch":
+                tg = {v: x for v, x in tt["targets"]}
+                empt.append(tt["otherwise"] if 0 in tg else tg.get(1))
+    bad_none = [b for b in nones if not any(e is not None and (e == b or sr.dominates(e, b)) for e in empt)]
+    ok = bool(nones) and not bad_none
+    ctx.oblig(ok, {"stdin reader": "`None` only behind buffer.is_empty()", "None returns": len(nones)}, "dominance")
+    if not ok:
+        ctx.violation("stdin-eof-drops-text", sp_file_line(sr.stmts(bad_none[0])[0].get("sp")) if bad_none and sr.stmts(bad_none[0]) else sr.file_line(),
+                      "the stdin reader can answer `None` (end of commands) although it has collected text: a last command that is not followed by a newline or "
+                      "';' is dropped on standard input but executed through --command")
     # combined reader: argument first
     cr = prog.fns[CR_READ]
     ab = [b for b, t, c in cr.calls() if c == ARG_READ]
@@ -557,3 +576,95 @@ def run(ctx):
         ctx.violation("utf8-decoder", rc.file_line(), "read_char_from_bytes no longer decodes with str::from_utf8 / checks continuation bytes")
     ctx.finish_rule()
 
+    # ------------------------------------------------------------------ R9
+    # `label+offset` / `label-offset`: what follows the name must start with the sign, otherwise `hw#1` or `hwx1`-like tails would be a
+    # second spelling of `hw+1`. The label parser therefore reaches the integer parser only with "sign required", and the integer
+    # parser honours that request.
+    ctx.rule("C14.R9", "a label's offset is parsed with a mandatory leading sign", floor=2)
+    PINT = PI + "parse_integer"
+    pint = ctx.fn(PINT)
+    LBL = [n for n in prog.fns if prog.fns[n].bkind == "fn" and n.endswith("::try_parse") and "TryParse" in n and "command::Label<" in n]
+    ctx.need(len(LBL) == 1, "the label argument parser (TryParse for Label)")
+    lf = prog.fns[LBL[0]]
+
+    def sign_args(f, depth=0):
+        """values of parse_integer's `require_sign` on every route from f: list of (site, const or None)"""
+        out = []
+        for b, t, c in f.calls():
+            if c == PINT:
+                a = f.expr(t["args"][1], 8) if len(t["args"]) > 1 else ("unknown", "?")
+                out.append((sp_file_line(t.get("sp")), a[1] if a[0] == "const" else None))
+            elif c in prog.fns and c != f.name and depth < 3 and PINT in ctx.cg.reachable([c]):
+                sub = sign_args(prog.fns[c], depth + 1)
+                out.extend((sp_file_line(t.get("sp")) + " via " + short(c), v) for _, v in sub)
+        return out
+
+    routes = sign_args(lf)
+    ctx.need(routes, "a call from the label parser that reaches parse_integer")
+    for where, v in routes:
+        ctx.instance(1)
+        ok = v == 1
+        ctx.oblig(ok, {"label offset parsed at": where, "require_sign": v}, "constant true")
+        if not ok:
+            ctx.violation("label-offset-sign", where.split(" via ")[0],
+                          "the label parser hands the text after the name to the integer parser with require_sign = %s (at %s): a tail that does not start "
+                          "with + or - (`hw#1`, `hw#-1`) is then accepted as an offset, a second spelling the documented grammar does not have"
+                          % ("false" if v == 0 else "unknown", where))
+    # parse_integer: when the sign is required and none was taken, the only way on is the error exit
+    ctx.instance(1)
+    sw = [b for b in sorted(pint.live_blocks()) if pint.term(b)["k"] == "switch"
+          and any(x[0] == "arg" and x[1] == 2 for x in expr_walk(pint.expr(pint.term(b)["a"], 4)))]
+    ok = False
+    if sw:
+        t = pint.term(sw[0])
+        tg = {v: x for v, x in t["targets"]}
+        t_false = tg.get(0, t["otherwise"])
+        t_true = t["otherwise"] if 0 in tg else tg.get(1)
+        errb = kit.error_blocks(pint)
+        side = pint.reachable(t_true, avoid={t_false}) if t_true is not None else set()
+        reads_sign = any(c and (c.endswith("::is_none") or c.endswith("::is_some")) for b in side for bb, tt, c in [(b, pint.term(b), callee_of(pint.term(b)) if pint.term(b)["k"] == "call" else None)]) \
+            or any(pint.term(b)["k"] == "switch" and pint.expr(pint.term(b)["a"], 4)[0] == "discr" for b in side)
+        ok = bool(side & errb) and reads_sign and not any(pint.term(b)["k"] == "call" and str(callee_of(pint.term(b))).endswith("take_prefix") for b in side)
+    ctx.oblig(ok, {"parse_integer": "require_sign && no sign -> Err before the prefix is read"}, "error exit on the required-sign side")
+    if not ok:
+        ctx.violation("require-sign-honoured", pint.file_line(), "parse_integer no longer rejects a missing sign when one is required (before reading the prefix)")
+    ctx.finish_rule()
+
+    # ------------------------------------------------------------------ R10
+    # the --command splitter keeps a *byte* cursor into the script (it slices the String with it); whatever is added to it must be a
+    # byte quantity (len_utf8, find, len, the one-byte delimiter) - a character count cuts commands short as soon as a multi-byte
+    # character occurs, and the stdin transport (which collects chars) then disagrees with it
+    from ..dim import Dim
+    ctx.rule("C14.R10", "the argument reader advances its byte cursor by byte quantities only", floor=1)
+    ar = ctx.fn(ARG_READ)
+    slicers = set()
+    for b, t, c in ar.calls():
+        if c and (c.endswith("::index") or c.endswith("str>::get") or c.endswith("String::get") or c.endswith("::get")) and "str" in " ".join(t.get("arg_tys") or []).lower():
+            for a in t["args"][1:]:
+                for x in expr_walk(ar.expr(a, 8, stop={"named"})):
+                    if x[0] == "field":
+                        slicers.add(x[2])
+                    if x[0] == "local":
+                        sd = ar.single_def(x[1])
+                        if sd and sd[0] == "stmt":
+                            for y in expr_walk(ar.rvalue_expr(sd[3]["r"], 6, stop={"named"})):
+                                if y[0] == "field":
+                                    slicers.add(y[2])
+    adt_fields = {f_["name"] for v in (prog.adts.get("lace::debugger::command::reader::argument::Argument", {}).get("variants") or [{}]) for f_ in v.get("fields", [])}
+    bytecur = sorted(x for x in slicers if (x in adt_fields or not adt_fields) and x not in ("buffer",))
+    ctx.need(len(bytecur) == 1, "the byte cursor of the argument reader (the usize field its slices start at): %s" % bytecur)
+    D14 = Dim(ctx, byte_fields={bytecur[0]})
+    for b, i, s_ in ar.assigns():
+        fl = [e_.get("n") for e_ in s_["p"].get("pr", []) if isinstance(e_, dict) and "f" in e_]
+        if fl and fl[-1] == bytecur[0]:
+            e = ar.rvalue_expr(s_["r"], 10, stop={"named"})
+            d = D14.dim(ar, e)
+            ctx.instance(1)
+            ok = d in ("B", "K")
+            ctx.oblig(ok, {"cursor :=": expr_str(e, 80), "dimension": d, "at": sp_file_line(s_.get("sp"))}, "bytes / constant")
+            if not ok:
+                ctx.violation("argcursor-dim", sp_file_line(s_.get("sp")),
+                              "the argument reader's byte cursor is assigned `%s`, whose dimension is %s (%s): a command containing a multi-byte character is cut "
+                              "short and its tail is run as a command of its own, which does not happen on standard input"
+                              % (expr_str(e, 80), d, {"C": "a character count", "MIX": "bytes mixed with characters", "U": "unclassified"}.get(d, d)))
+    ctx.finish_rule()
